@@ -423,8 +423,13 @@ def check(ctx):
         gfn, gcall = grow
         scope_funcs = {n.name: n for n in ast.walk(gfn.node) if isinstance(n, ast.FunctionDef) and n is not gfn.node}
         closure = {}
-        for st in gfn.node.body:
-            if isinstance(st, ast.Assign) and len(st.targets) == 1 and isinstance(st.targets[0], ast.Name) and not isinstance(st.value, ast.Lambda):
+        n_stores = {}
+        for t_, v_, s_, k_ in iter_stores(gfn.node):
+            if isinstance(t_, ast.Name):
+                n_stores[t_.id] = n_stores.get(t_.id, 0) + 1
+        for st in ast.walk(gfn.node):
+            # locals bound exactly once (anywhere in the routine: the growth of an optional array sits in a branch)
+            if isinstance(st, ast.Assign) and len(st.targets) == 1 and isinstance(st.targets[0], ast.Name) and not isinstance(st.value, ast.Lambda) and n_stores.get(st.targets[0].id) == 1:
                 closure[st.targets[0].id] = st.value
         # order of growth vs. counter increment in the record routine
         gtests = guard_of(prog, rec, gcall)
